@@ -337,15 +337,34 @@ func init() {
 			parser string
 			input  string
 		}
+		type proxyKey struct {
+			cfg       *tiCfg
+			parser    string
+			hasParser bool
+			skipPre   bool
+		}
+		proxies := map[proxyKey]*OAuthProxy{}
 		relSeen := map[relKey]string{}
 		relWit := map[relKey]string{}
 		eval := func(tc *tiCfg, parser ipapi.RealClientIPParser, parserHdr string, req *http.Request, skipPre bool,
 			expect *tiAddr, desc string) {
-			p := &OAuthProxy{realClientIPParser: parser, skipAuthPreflight: skipPre}
+			// ONE proxy object per configuration, as in a running process: thousands of requests from few peers (the load balancer's
+			// keep-alive connections, the unix socket) pass through it, and each is decided on its own input
+			pk := proxyKey{tc, parserHdr, parser != nil, skipPre}
+			p := proxies[pk]
 			netsField := "nil"
 			if !tc.nil_ {
-				p.trustedIPs = tc.cfg.set
 				netsField = tc.cfg.field
+			}
+			if p == nil {
+				p = &OAuthProxy{realClientIPParser: parser, skipAuthPreflight: skipPre}
+				if !tc.nil_ {
+					p.trustedIPs = tc.cfg.set
+				}
+				proxies[pk] = p
+				c.count("proxy-objects")
+			} else {
+				c.count("proxy-object-reused")
 			}
 			var cip string
 			if a, err := ip.GetClientIP(parser, req); err != nil {
